@@ -15,6 +15,7 @@ import copy
 from ..core import H, stream, compile_source, digest
 from ..world import ModInfo, Sim, state_digest
 from ..harness import Result
+from ..monitors import Monitor
 from .. import scen
 from ..minimise import minimise_scenario
 
@@ -70,8 +71,8 @@ def _replay_min(scn):
     return execute(c).violations
 
 
-def minimise(v):
-    return minimise_scenario(v, _replay_min)
+def minimise(v, max_runs=220):
+    return minimise_scenario(v, _replay_min, max_runs)
 
 
 # ---------------------------------------------------------------------------
@@ -123,7 +124,7 @@ def one_run(mi, scn, plan, res, base=None):
         def fired(kind):
             orig(kind)
             cpu = sim.cpu
-            if info['at'] is None:
+            if info['at'] is None and kind in kinds:
                 info['armed'] = (cpu.trap_target is not None and
                                  not cpu.error_handler_active)
                 info['at'] = sim.ticks
@@ -139,6 +140,7 @@ def one_run(mi, scn, plan, res, base=None):
                     info['hist'] = len(sim_.history)
             sim.post_hooks.append(post)
 
+    mon = Monitor(sim, types=False, depth=True)
     out = sim.run()
     res.evals += 1
     res.ticks += out['ticks']
@@ -163,8 +165,7 @@ def one_run(mi, scn, plan, res, base=None):
         res.violation(f"C07:host-exception:{e['type']}@{e['where']}",
                       {'exc': e, 'plan': plan, 'ticks': out['ticks']},
                       _mk(scn, plan),
-                      sig={'exc_type': e['type'], 'where': e['where'],
-                           'fault': kinds[0] if kinds else None})
+                      sig=dict(mon.sig(), exc_type=e['type'], where=e['where']))
         return sim, out
     # 2. defined end state (budget overruns are counted, see DESIGN: a program
     #    may legitimately loop; only the interrupt case below has a deadline)
@@ -286,7 +287,7 @@ def execute(scn):
     for j in range(1, min(n_in, 8) + 1):
         if only and 'F4' not in only:
             break
-        for mode in ('none', 'eof'):
+        for mode in ('none',):
             one_run(mi, scn, [{'kind': 'F4', 'at': j, 'mode': mode}], res, base)
     # two faults in one run: a failure and, later, an interrupt
     if D >= 2 and not only:
